@@ -771,11 +771,22 @@ impl Watch {
                     self.stats.hit("c15_expiry_pingreq_send");
                 }
                 Tk::PingreqRecv | Tk::PingrespRecv => {
-                    let ok = if self.m.ver == 5 { closes && sends.len() == 1 && sends[0].kind == wire::DISCONNECT && sends[0].rc == Some(0x8d) } else { closes && sends.is_empty() };
+                    // v5.0: DISCONNECT 0x8D, unless even that packet exceeds the peer's Maximum
+                    // Packet Size - then the connection is closed without it (C14 forbids the
+                    // packet, C19 still wants the close)
+                    let mut d = Pkt::new(5, wire::DISCONNECT);
+                    d.rc = Some(0x8d);
+                    let fits = self.m.mps_send.map_or(true, |l| wire::encode(&d, self.idw).len() <= l as usize);
+                    let ok = if self.m.ver == 5 && fits { closes && sends.len() == 1 && sends[0].kind == wire::DISCONNECT && sends[0].rc == Some(0x8d) } else { closes && sends.is_empty() };
                     if !ok {
                         let props: &[&'static str] = if closes { &["C15"] } else { &["C15", "C19"] };
-                        self.flag(props, format!("expiry-effect/{k:?}"), format!("{what}: expected {} : {}", if self.m.ver == 5 { "DISCONNECT 0x8D then close" } else { "close" }, evs_short(&evs)));
+                        self.flag(props, format!("expiry-effect/{k:?}"), format!("{what}: expected {} : {}", if self.m.ver == 5 && fits { "DISCONNECT 0x8D then close" } else { "close" }, evs_short(&evs)));
                         return evs;
+                    }
+                    if self.m.ver == 5 && !fits {
+                        // closed like after a DISCONNECT, only without the packet
+                        self.m.st = St::Disc;
+                        self.stats.hit("c19_keepalive_timeout_disconnect_does_not_fit");
                     }
                     self.stats.hit("c15_expiry_timeout");
                     self.stats.hit("c19_keepalive_timeout");
@@ -816,6 +827,16 @@ impl Watch {
                 let props: &[&'static str] = if unreleased { &["C06", "C08"] } else { &["C06"] };
                 self.flag(props, "offline-queued-packet-kept-after-nonpersistent-close", format!("{what}: the session is not persistent, {}, but {} packet(s) stay in the exported store", if unreleased { "its in-flight exchanges end here without their ids being released" } else { "the ids of its in-flight publishes are released" }, self.m.store.len()));
                 return evs;
+            }
+            if !self.m.persistent && !self.opts.offline && self.viol.is_none() {
+                // the session ends with the connection: nothing of its QoS 2 receive state may
+                // stay behind (a later session would take a new message for a retransmission)
+                let h = self.ep.handled();
+                if !h.is_empty() {
+                    self.note(format!("{what} -> {}", evs_short(&evs)));
+                    self.flag(&["C10", "C07"], "handled-ids-survive-nonpersistent-close", format!("{what}: the session was not persistent but the handled QoS 2 ids {:?} are still there", h));
+                    return evs;
+                }
             }
             if !self.m.persistent {
                 for o in &self.m.out {
